@@ -34,10 +34,11 @@ def count_same(cols, n, cells_j):
 class Group(Harness):
     prop = "C04"
     opname = "df_group"
-    def __init__(self, mode, kinds, maxn):
-        self.mode = mode; self.kinds = kinds; self.maxn = maxn
-        self.name = f"C04.{mode}.{'+'.join(kinds)}.n{maxn}"
-        self.bounds = {"rows": f"0..{maxn}", "group column dtypes": [KIND_DTYPE[k] for k in kinds]}
+    def __init__(self, mode, kinds, maxn, interleave=None):
+        self.mode = mode; self.kinds = kinds; self.maxn = maxn; self.interleave = interleave
+        self.name = f"C04.{mode}.{'+'.join(kinds)}{'.then_' + interleave if interleave else ''}.n{maxn}"
+        self.bounds = {"rows": f"0..{maxn}", "group column dtypes": [KIND_DTYPE[k] for k in kinds],
+                       "history": f"group_by, then {interleave}('v') on the same object, then aggregate" if interleave else "group_by, aggregate"}
         self.symbolic = ["all group-key and value cells, in arbitrary (unsorted) order"]
         self.choice_dims = ["nrow"]
         self.goals = {"aggregate": ["data_frame.py:DataFrame.aggregate", "aggregate.py:count", "aggregate.py:yield_groups"],
@@ -54,7 +55,9 @@ class Group(Harness):
             by.append(name)
         cols["v"] = mk_col("f", n, "v")
         cols["rid"] = rid_col(n)
-        return {"data": Frame(cols), "by": by, "mode": self.mode}
+        inp = {"data": Frame(cols), "by": by, "mode": self.mode}
+        if self.interleave: inp["interleave"] = self.interleave
+        return inp
     def regions(self, inp):
         from .c03 import Sort
         data = inp["data"]
@@ -183,6 +186,7 @@ def harnesses(tier):
             hs.append(Group("aggregate", [k], 3))
         hs.append(Group("aggregate", ["i", "b"], 3))
         hs.append(Group("count", ["td"], 3))
+        hs.append(Group("aggregate", ["i"], 2, interleave="count"))
         hs.append(Group("aggregate", ["us"], 2))
         for mode in ("count", "split", "modify", "helper"):
             hs.append(Group(mode, ["f"], 3))
@@ -193,6 +197,8 @@ def harnesses(tier):
             for mode in ("aggregate", "count", "split", "modify", "helper"):
                 # the helper mode enumerates every helper per layout: strings cost 35 min at four rows, three rows there
                 hs.append(Group(mode, [k], 3 if mode == "helper" and k in ("T", "U") else 4))
+        for k in ("f", "T", "i"):
+            hs.append(Group("aggregate", [k], 3, interleave="count")); hs.append(Group("aggregate", [k], 3, interleave="unique"))
         for a, b in [("f", "f"), ("f", "i"), ("i", "b"), ("T", "f"), ("D", "T"), ("b", "f")]:
             for mode in ("aggregate", "count", "split", "modify"):
                 hs.append(Group(mode, [a, b], 3))
